@@ -6,6 +6,10 @@
 //!   then per input: `# I <tidx>*` `# ER <lexeme idx> <state> <number of sequences>` followed by one
 //!   `# RS <step>*` per sequence (steps `I<tidx>`, `D<lexeme idx>`, `S<lexeme idx>`), …, finally
 //!   `# VL acc <tree>` | `# VL none` | `# VL panic <msg>` | `# VL lexerr`, and `# TM <wall ms>`.
+//!   `# BO <0|1>` (right after `# I`): the order in which the builder's setters were called for this input,
+//!   0 = `.recoverer(..).term_costs(..)`, 1 = `.term_costs(..).recoverer(..)`.  The order is an INPUT of the
+//!   harness: 1 iff (index of the input within the case line + number of lexemes of the input) is odd.  The
+//!   result must not depend on it (the setters are independent; the models know nothing about an order).
 use gvh::common::*;
 use gvh::util::*;
 use lrpar::{LexParseError, Lexeme, ParseRepair, RTParserBuilder, RecoveryKind};
@@ -40,14 +44,19 @@ fn budget_ms() -> u64 {
     std::env::var("GRMTOOLS_VERIF_RECOVERY_BUDGET_MS").ok().and_then(|v| v.parse::<u64>().ok()).unwrap_or(500)
 }
 
-fn parse_with_recovery(b: &Built, toks: &[u32], costs: &[u8], o: &mut String) {
+fn parse_with_recovery(b: &Built, toks: &[u32], costs: &[u8], costs_first: bool, o: &mut String) {
     let lexer = ReplayLexer::new(toks.to_vec());
     let t0 = std::time::Instant::now();
     // inserted lexemes must be zero-length and faulty, real ones neither
     let odd = std::cell::Cell::new(0usize);
     let r = catch(std::panic::AssertUnwindSafe(|| {
         let cf = |t: cfgrammar::TIdx<u32>| -> u8 { costs[usize::from(t)] };
-        let pb = RTParserBuilder::<u32, LT>::new(&b.grm, &b.st).recoverer(RecoveryKind::CPCTPlus).term_costs(&cf);
+        let pb = RTParserBuilder::<u32, LT>::new(&b.grm, &b.st);
+        let pb = if costs_first {
+            pb.term_costs(&cf).recoverer(RecoveryKind::CPCTPlus)
+        } else {
+            pb.recoverer(RecoveryKind::CPCTPlus).term_costs(&cf)
+        };
         pb.parse_map(
             &lexer,
             &|lexeme: Lx| {
@@ -145,7 +154,7 @@ fn main() {
                 write!(o, " {}", usize::from(t)).unwrap();
             }
         }
-        for inp in parts {
+        for (idx, inp) in parts.enumerate() {
             let mut toks: Vec<u32> = Vec::new();
             let mut ok = true;
             for n in inp.split_whitespace() {
@@ -161,7 +170,9 @@ fn main() {
             for t in &toks {
                 write!(o, " {}", t).unwrap();
             }
-            parse_with_recovery(&b, &toks, &costs, &mut o);
+            let costs_first = (idx + toks.len()) % 2 == 1;
+            write!(o, " # BO {}", if costs_first { 1 } else { 0 }).unwrap();
+            parse_with_recovery(&b, &toks, &costs, costs_first, &mut o);
         }
         o
     });
